@@ -55,7 +55,8 @@ pub enum Note {
 
 pub struct GsNode {
     pub beh: Beh,
-    pub conns: BTreeMap<PeerId, Conn>,
+    /// live connections per peer, oldest first (the order of `PeerDetails::connections`)
+    pub conns: BTreeMap<PeerId, Vec<Conn>>,
     next_conn: usize,
     /// `ToSwarm::GenerateEvent`s drained so far (cleared by the caller)
     pub app_events: Vec<gs::Event>,
@@ -76,13 +77,16 @@ impl GsNode {
     }
 
     pub fn is_connected(&self, p: &PeerId) -> bool {
-        self.conns.contains_key(p)
+        self.conns.get(p).is_some_and(|v| !v.is_empty())
+    }
+    pub fn conn_count(&self, p: &PeerId) -> usize {
+        self.conns.get(p).map_or(0, |v| v.len())
     }
 
-    /// Establish the (single) connection to `peer` and report the negotiated protocol kind, as the
+    /// Establish a (further) connection to `peer` and report the negotiated protocol kind, as the
     /// handler does on its first poll after the first substream has been negotiated.
     pub fn connect(&mut self, peer: PeerId, outbound: bool, kind: Kind) {
-        assert!(!self.conns.contains_key(&peer), "one connection per peer in this seam");
+        let other_established = self.conn_count(&peer);
         let id = ConnectionId::new_unchecked(self.next_conn);
         self.next_conn += 1;
         let remote = kit::ids::maddr(1000 + id_index(&peer) as u64);
@@ -94,22 +98,39 @@ impl GsNode {
             let h = self.beh.handle_established_inbound_connection(id, peer, &local, &remote).expect("gossipsub never denies");
             (h, ConnectedPoint::Listener { local_addr: local, send_back_addr: remote })
         };
-        self.beh.on_swarm_event(FromSwarm::ConnectionEstablished(ConnectionEstablished { peer_id: peer, connection_id: id, endpoint: &endpoint, failed_addresses: &[], other_established: 0 }));
-        self.conns.insert(peer, Conn { id, handler, endpoint });
+        self.beh.on_swarm_event(FromSwarm::ConnectionEstablished(ConnectionEstablished { peer_id: peer, connection_id: id, endpoint: &endpoint, failed_addresses: &[], other_established }));
+        self.conns.entry(peer).or_default().push(Conn { id, handler, endpoint });
         self.beh.on_connection_handler_event(peer, id, hook::verif_peer_kind_event(kind.peer_kind()));
         self.pump();
     }
 
-    pub fn disconnect(&mut self, peer: PeerId) {
-        let Some(c) = self.conns.remove(&peer) else { return };
-        self.beh.on_swarm_event(FromSwarm::ConnectionClosed(ConnectionClosed { peer_id: peer, connection_id: c.id, endpoint: &c.endpoint, cause: None, remaining_established: 0 }));
+    /// close the `idx`-th oldest live connection of `peer`
+    pub fn close(&mut self, peer: PeerId, idx: usize) {
+        let Some(v) = self.conns.get_mut(&peer) else { return };
+        if idx >= v.len() {
+            return;
+        }
+        let c = v.remove(idx);
+        let remaining_established = v.len();
+        if v.is_empty() {
+            self.conns.remove(&peer);
+        }
+        self.beh.on_swarm_event(FromSwarm::ConnectionClosed(ConnectionClosed { peer_id: peer, connection_id: c.id, endpoint: &c.endpoint, cause: None, remaining_established }));
         self.pump();
+    }
+
+    /// close every connection of `peer`, newest first
+    pub fn disconnect(&mut self, peer: PeerId) {
+        while self.conn_count(&peer) > 0 {
+            let last = self.conn_count(&peer) - 1;
+            self.close(peer, last);
+        }
     }
 
     /// Feed wire bytes (length-prefixed frames) received from `peer` through the real codec into
     /// the behaviour. Err = the codec rejected the bytes (nothing delivered from the bad frame on).
     pub fn inject(&mut self, peer: PeerId, wire: &[u8]) -> Result<usize, String> {
-        let Some(c) = self.conns.get(&peer) else { return Err("not connected".into()) };
+        let Some(c) = self.conns.get(&peer).and_then(|v| v.first()) else { return Err("not connected".into()) };
         let id = c.id;
         let cfg = self.beh.verif_config().clone();
         let evs = hook::verif_decode(&cfg, wire)?;
@@ -141,12 +162,17 @@ impl GsNode {
                         HandlerIn::JoinedMesh => Note::Joined,
                         HandlerIn::LeftMesh => Note::Left,
                     };
-                    let delivered = match self.conns.get_mut(&peer_id) {
-                        Some(c) if matches!(handler, NotifyHandler::Any) || matches!(handler, NotifyHandler::One(id) if id == c.id) => {
+                    // what the Swarm does: deliver to the addressed connection if it is still open
+                    let target = self.conns.get_mut(&peer_id).and_then(|v| match handler {
+                        NotifyHandler::Any => v.first_mut(),
+                        NotifyHandler::One(id) => v.iter_mut().find(|c| c.id == id),
+                    });
+                    let delivered = match target {
+                        Some(c) => {
                             c.handler.on_behaviour_event(event);
                             true
                         }
-                        _ => false,
+                        None => false,
                     };
                     self.notes.push((peer_id, note, delivered));
                 }
@@ -156,9 +182,14 @@ impl GsNode {
         }
     }
 
-    /// what the peer's real handler believes (`in_mesh`, observable as keep-alive)
+    /// what the real handler of the peer's oldest live connection believes (`in_mesh`,
+    /// observable as keep-alive)
     pub fn handler_in_mesh(&self, peer: &PeerId) -> Option<bool> {
-        self.conns.get(peer).map(|c| c.handler.connection_keep_alive())
+        self.conns.get(peer).and_then(|v| v.first()).map(|c| c.handler.connection_keep_alive())
+    }
+    /// the belief of every live connection's handler, oldest connection first
+    pub fn handlers_in_mesh(&self, peer: &PeerId) -> Vec<bool> {
+        self.conns.get(peer).map(|v| v.iter().map(|c| c.handler.connection_keep_alive()).collect()).unwrap_or_default()
     }
 
     /// everything the behaviour queued for `peer`, in handler pop order, as wire frames
